@@ -6,6 +6,8 @@ package main
 import (
 	"go/types"
 	"strings"
+
+	"golang.org/x/tools/go/ssa"
 )
 
 type stableRef struct {
@@ -108,4 +110,48 @@ func (fg *FnGen) subRef(name string, base *Term) *Term {
 		fg.assume(Eq(App("fldinv:"+name, SInt, t), base))
 	}
 	return t
+}
+
+// sliceContains: slices.Contains(s, v) as a deterministic function of the slice's contents (backing array, offset,
+// length) and v. Its meaning (exists i. s[i] == v) is linked where needed by instantiating the definition.
+func (fg *FnGen) sliceContains(s *Term, elem types.Type, v *Term, st *State) *Term {
+	mn, ms, isB := fg.memVar(elem)
+	mem := fg.lookup(st, mn, ms)
+	if isB {
+		return StrContains(Substr(Select(mem, SBase(s)), SOff(s), SLen(s)), StrFromCode(v))
+	}
+	fg.g.useTrusted("built-in contract: slices.Contains is a deterministic function of the slice contents and the value")
+	return App("slices_contains_"+sanitize(v.Sort), SBool, Select(mem, SBase(s)), SOff(s), SLen(s), v)
+}
+
+// bumpClockForPhis: at a loop header the allocation clock is advanced to a fresh bound that dominates the references
+// held by the loop-carried variables (they may have been allocated in earlier iterations).
+func (fg *FnGen) bumpClockForPhis(fr *Frame, h *ssa.BasicBlock) {
+	var refs []*Term
+	for _, ins := range h.Instrs {
+		phi, ok := ins.(*ssa.Phi)
+		if !ok {
+			break
+		}
+		t, ok := fr.vals[phi]
+		if !ok {
+			continue
+		}
+		switch phi.Type().Underlying().(type) {
+		case *types.Pointer, *types.Map, *types.Chan:
+			refs = append(refs, t)
+		case *types.Slice:
+			refs = append(refs, SBase(t))
+		}
+	}
+	c := fg.freshConst("clock", SInt)
+	prev := fg.refLimit()
+	if len(fg.allocs) > 0 {
+		prev = fg.allocs[0]
+	}
+	fg.assume(Ge(c, prev))
+	for _, r := range refs {
+		fg.assume(Le(r, c))
+	}
+	fg.allocs = []*Term{c}
 }
